@@ -73,6 +73,15 @@ impl<T: Uint> JsonUintVisitor<T> {
             )));
         }
 
+        // `from_str_radix` also accepts a leading `+`, which is not a hex digit
+        if value_bytes[2] == b'+' {
+            return Err(Error::custom(format!(
+                "Invalid {} {}: invalid digit found in string",
+                T::NAME,
+                value,
+            )));
+        }
+
         T::from_str_radix(&value[2..], 16)
             .map(JsonUint)
             .map_err(|e| Error::custom(format!("Invalid {} {}: {}", T::NAME, value, e)))
